@@ -1,7 +1,7 @@
 (* Properties_C07.v — MLR is ordinary least squares with intercept. *)
 From Coq Require Import Floats.
 From mathcomp Require Import all_ssreflect all_algebra.
-From LS Require Import NumOps RcfOps F64Ops Kernels Algebra Mlr MlrSpec GJ GjExec.
+From LS Require Import NumOps RcfOps F64Ops Kernels Algebra Mlr MlrSpec GJ GjExec GjTotal.
 Set Implicit Arguments. Unset Strict Implicit. Unset Printing Implicit Defensive.
 Import Order.TTheory GRing.Theory Num.Theory.
 Local Open Scope ring_scope.
@@ -55,8 +55,13 @@ Theorem C07_executable_inverse_meets_NZ (R : rcfType) p (A : seq (seq R)) : RcfO
   (forall i, (i < p)%N -> pivot_of p (state p A i) i != 0%R) ->
   (mx_of p p (gj_inverse A) *m mx_of p p A = 1%:M)%R.
 Proof. exact: gj_inverse_mx. Qed.
+(* ... and that hypothesis holds for every invertible Z'Z (full column rank): no pivot of the executable inversion vanishes *)
+Theorem C07_executable_inverse_total (R : rcfType) p (A : seq (seq R)) : RcfOps.wf p p A -> (mx_of p p A \in unitmx)%R ->
+  (mx_of p p (gj_inverse A) = invmx (mx_of p p A))%R.
+Proof. exact: gj_inverse_total. Qed.
 Print Assumptions C07_normal_equations.
 Print Assumptions C07_executable_inverse_meets_NZ.
+Print Assumptions C07_executable_inverse_total.
 Print Assumptions C07_least_squares.
 Print Assumptions C07_exact_recovery.
 Print Assumptions C07_gauss_jordan_sound.
